@@ -75,6 +75,7 @@ class Scenario:
             sa.delete_ike_sa_at = now - 1
         elif kind == 'dpd':
             sa.start_dpd_at = now - 1
+            sim.forced_dpd = True       # the harness made the probe due: the DPD monitor must not judge its timing
         return ep.step('tick')
 
     def deliver(self, i):
